@@ -242,7 +242,7 @@ pub fn run(ctx: &Ctx) -> Value {
     // all pairs within one week around every 1 January of a 400-year cycle: the same ISO week may span two calendar years, and
     // the dates of one ISO week must have EQUAL (==, cmp, hash) week values whichever route produced them
     for y in 1999..2400 {
-        if ctx.quick() && y % 3 != 0 && y % 400 > 40 { continue; }
+        if ctx.quick() && y % 3 != 0 && y % 400 > 40 && y % 100 > 1 { continue; }      // (century seams are never thinned)
         let j1 = days_from_civil(y, 1, 1);
         for a in j1 - 3..=j1 + 3 { for b in a..=(a + 6).min(j1 + 6) { tw.emit(cmp_event(mk_date(a), mk_date(b))); } }
     }
